@@ -129,9 +129,20 @@ commands:
     tool: mkdir
     outputs: ["p_inmka"]
     allow-missing-inputs: "true"
+  probe-pr-mkm:
+    tool: mkdir
+    outputs: ["p_prmkm"]
+    allow-modified-outputs: "true"
+  probe-pr-mk:
+    tool: mkdir
+    outputs: ["p_prmk"]
+  probe-pr-phm:
+    tool: phony
+    outputs: ["<probe-pr-phm>"]
+    allow-modified-outputs: "true"
   all:
     tool: phony
-    inputs: ["p_sh.out", "p_sh2.out", "<p_shv>", "<p_shts>", "p_shd/", "p_shs/", "p_sha.out", "<p_phv>", "<p_phts>", "p_ph.out",
+    inputs: ["p_prmkm", "p_prmk", "<probe-pr-phm>", "p_sh.out", "p_sh2.out", "<p_shv>", "<p_shts>", "p_shd/", "p_shs/", "p_sha.out", "<p_phv>", "<p_phts>", "p_ph.out",
              "p_phd/", "p_phs/", "p_mk", "<p_mkv>", "<p_mkts>", "p_mkd/", "p_mks/", "p_sy.lnk", "<p_syv>", "<p_syts>", "p_syd/",
              "p_sys/", "<st-rm>", "<st-ts>", "<probe-in-ph>", "<probe-in-pha>", "p_inmk", "p_inmka"]
     outputs: ["<all>"]
@@ -139,15 +150,18 @@ commands:
 
 def probe_tool(name):
     p = name.split("-")[0]
-    if name.startswith("probe-in-ph") or name == "all": return 1
-    if name.startswith("probe-in-mk"): return 2
+    if name.startswith("probe-in-ph") or name.startswith("probe-pr-ph") or name == "all": return 1
+    if name.startswith("probe-in-mk") or name.startswith("probe-pr-mk"): return 2
     return {"sh": 0, "ph": 1, "mk": 2, "sy": 3, "st": 4}[p]
 
 IN_CONTRACT = {0: (10, 17, 11, 12, 13, 14), 1: (10, 17, 11, 12, 13, 14), 2: (10, 17, 11, 12, 13, 14),
                3: (10, 17, 11, 12, 13, 14), 4: (7, 11, 12, 13, 14)}
 # commands of the probe description all of whose outputs are virtual, or whose validity does not read the recorded
 # infos (mkdir looks at the directory only): the "perturbed infos" variant is then still fs_ok
-VALID_FS_ALWAYS_OK = ("mk-plain", "mk-dir", "mk-str", "probe-in-ph", "probe-in-pha", "probe-in-mk", "probe-in-mka", "all")
+VALID_FS_ALWAYS_OK = ("mk-plain", "mk-dir", "mk-str", "probe-in-ph", "probe-in-pha", "probe-in-mk", "probe-in-mka", "all",
+                      "probe-pr-mkm", "probe-pr-mk", "probe-pr-phm")
+# (allow-modified-outputs, all outputs exist after the probe build) of the commands probed with a prior value
+PRIOR_FLAGS = {"probe-pr-mkm": (1, 1), "probe-pr-mk": (0, 1), "probe-pr-phm": (1, 0)}
 # symlink commands whose link lives at link-output-path: the driver cannot construct the matching link info
 VALID_FS_NEVER_OK = ("sy-virtual", "sy-ts", "sy-dir", "sy-str")
 
@@ -165,6 +179,7 @@ def run_tables(chk, drv, model):
     rfo = [e.split(":") for e in parts[0].split()[1:]]
     valid = [e.split(":") for e in parts[1].split()[1:]]
     inp = [e.split(":") for e in parts[2].split()[1:]]
+    prior = [e.split(":") for e in parts[3].split()[1:]] if len(parts) > 3 else []
     reqs, meta = [], []
     # ---- getResultForOutput
     seen_combo = set()
@@ -188,6 +203,10 @@ def run_tables(chk, drv, model):
         allow = 1 if name.endswith("a") else 0
         reqs.append("run %d %d 0 1 0 %s 0" % (t, allow, seq)); meta.append(("inp", name, t, allow, seq, "%s %s %s" % (rk, started, fails), int(missing)))
         reqs.append("state %d %s" % (allow, seq)); meta.append(("inpstate", name, t, allow, seq, int(missing)))
+    # ---- providePriorValue / execute (the update-if-newer shortcut)
+    for name, pk, started, rk in prior:
+        am, oe = PRIOR_FLAGS[name]
+        reqs.append("runp %d 0 1 %d %d %s - 0" % (probe_tool(name), am, oe, pk)); meta.append(("prior", name, pk, "%s %s" % (rk, started)))
     rc2, mo, e2 = vlib.run_lines(model, reqs, timeout=600)
     assert rc2 == 0 and len(mo) == len(reqs), (rc2, e2[-500:])
     ndis = 0
@@ -218,6 +237,17 @@ def run_tables(chk, drv, model):
             if int(a) != ok:
                 ndis += 1
                 chk.notes.setdefault("valid_disagreements", []).append(dict(command=name, value=vk, match=match, implementation=ok, model=int(a)))
+        elif m[0] == "prior":
+            _, name, pk, impl = m
+            chk.distinct.add(("prior", name, pk))
+            rk, started = impl.split(" ")
+            if pk not in ("10", "17") and started == "0":
+                chk.violation("failed-prior-shortcut", "the real %s command, given the recorded prior value %s, completes with %s WITHOUT being launched (update-if-newer shortcut on a result that is not a success): a failed command is not attempted again"
+                              % (name, "none" if pk == "none" else KNAME.get(int(pk), pk), KNAME.get(int(rk), rk)),
+                              dict(command=name, prior=pk, implementation=impl, model=a, description=PROBE_DESC), found_input=True, broken="c10 oracle on the real providePriorValue/execute")
+            if " ".join(a.split(" ")[:2]) != impl:
+                ndis += 1
+                chk.notes.setdefault("prior_disagreements", []).append(dict(command=name, prior=pk, implementation=impl, model=a))
         elif m[0] == "inp":
             _, name, t, allow, seq, impl, missing = m
             ks = [] if seq == "-" else [int(x) for x in seq.split(".")]
@@ -240,7 +270,8 @@ def run_tables(chk, drv, model):
     chk.cov["table_disagreements"] = ndis
     chk.cov["exhaustive_tables"] = ("getResultForOutput: %d entries over (tool x node kind) combos %s x in-contract command value kinds x output missing/present; "
                                     "isResultValid: every probed command x value kind x recorded-infos match/mismatch; "
-                                    "provideValue+execute: every sequence of <= 3 input value kinds (13 kinds) on phony and mkdir instances with and without allow-missing-inputs"
+                                    "provideValue+execute: every sequence of <= 3 input value kinds (13 kinds) on phony and mkdir instances with and without allow-missing-inputs; "
+                                    "providePriorValue+execute: every recorded prior kind on instances with / without allow-modified-outputs and existing / missing outputs"
                                     % (len(rfo), sorted(seen_combo)))
     chk.sample(dict(kind="table", entry="rfo phony virtual FailedCommand", implementation=[r[5] for r in rfo if r[0] == "ph-kinds" and r[2] == "1" and r[3] == "11"][:1]))
     if ndis and not chk.violations:
@@ -281,6 +312,10 @@ def gen_history(rng, idx, modes):
         c = dict(name=name, tool=tool, inputs=ins, outputs=[], need=None, blocked=None, contents=None)
         if tool == "shell":
             nshell += 1
+            # flags that change the path through ExternalCommand::execute / isResultValid / the deps handling
+            c["allow_modified"] = rng.random() < 0.25
+            c["aood"] = rng.random() < 0.1
+            c["deps"] = rng.random() < 0.12
             for j in range(rng.choice([1, 1, 2])):
                 kind = rng.choice(["plain", "plain", "plain", "virtual", "timestamp", "directory", "structure", "blocked"])
                 if kind == "blocked" and c["blocked"]:
@@ -320,7 +355,9 @@ def gen_history(rng, idx, modes):
     def kinds(c):
         ks = []
         if c["tool"] == "shell":
-            ks += ["exit", "segv", "undeclared"]
+            ks += ["exit", "segv", "undeclared", "after-exit"]
+            if c.get("allow_modified"): ks += ["after-exit", "after-exit"]
+            if c.get("deps"): ks += ["bad-deps", "bad-deps"]
             if c["blocked"]: ks += ["unwritable", "unwritable"]
         if c["tool"] == "mkdir" and c["blocked"]: ks += ["mkdir-blocked"]
         if c["need"]: ks += ["missing-declared"]
@@ -355,12 +392,20 @@ def script_of(c, structs, links=()):
     # declared file inputs by content, directories by listing, symbolic links by their text (never through the link)
     s += "h=`(echo %s; cat %s; ls %s; %s) 2>/dev/null | cksum`; " % (name, " ".join(files) if files else "/dev/null", " ".join(dirs) if dirs else "/dev/null",
                                                                      "; ".join("readlink %s" % l for l in lk) if lk else "true")
+    if c.get("allow_modified"):
+        # with allow-modified-outputs the code deliberately does not rerun a command whose outputs exist: its content
+        # must not depend on its inputs, or an incremental build would legitimately differ from a clean one
+        s += "h=%s; " % name
     for o in c["outputs"]:
         k = node_kind(o, structs)
         if k == 0:
             s += "echo \"$h\" > %s || exit 1; " % o
         elif k in (3, 4):
             s += "mkdir -p %s && echo \"$h\" > %sf || exit 1; " % (o, o)
+    if c.get("deps"):
+        s += "echo 'o: src0.txt' > dep_%s.d; " % name
+    # a failure AFTER every output was written
+    s += "if [ -f failafter.%s ]; then . ./failafter.%s; fi; " % (name, name)
     return s + "true"
 
 def description(h):
@@ -381,6 +426,9 @@ def description(h):
         L.append("    outputs: [%s]" % ", ".join(yq(x) for x in c["outputs"]))
         if c["tool"] != "phony": L.append("    description: RUN-%s" % c["name"])
         if c["tool"] == "shell": L.append("    args: %s" % yq(script_of(c, structs, links)))
+        if c.get("allow_modified"): L.append('    allow-modified-outputs: "true"')
+        if c.get("aood"): L.append('    always-out-of-date: "true"')
+        if c.get("deps"): L += ["    deps: dep_%s.d" % c["name"], "    deps-style: makefile"]
         if c["tool"] == "symlink": L.append("    contents: %s" % yq(c["contents"]))
     return "\n".join(L) + "\n"
 
@@ -434,6 +482,10 @@ def apply_state(S, h, b, first):
         ff = os.path.join(S, "fail." + name)
         und = os.path.join(S, "undeclared_%s.h" % name)
         if os.path.exists(ff): os.unlink(ff)
+        fa = os.path.join(S, "failafter." + name)
+        if os.path.exists(fa): os.unlink(fa)
+        if kind[0] == "after-exit": open(fa, "w").write("exit 9\n")
+        elif kind[0] == "bad-deps": open(fa, "w").write("rm -f dep_%s.d\n" % name)
         if kind[0] == "exit": open(ff, "w").write("exit %d\n" % kind[1])
         elif kind[0] == "segv": open(ff, "w").write("kill -SEGV $$\n")
         elif kind[0] == "undeclared":
@@ -516,7 +568,7 @@ def predict(model, h, failset, S, skip=()):
                 k = node_kind(i, g.structs)
                 ins.append(1 if k == 1 else (2 if os.path.exists(os.path.join(S, i)) else 3))
         kind = failset.get(name, (None, 0))[0]
-        x = 1 if kind in ("exit", "segv", "undeclared", "unwritable", "mkdir-blocked") else 0
+        x = 1 if kind in LAUNCHABLE else 0
         a = model.ask("run %d 0 0 %d 0 %s %d" % (TOOLS[c["tool"]], 0 if name in skip else 1, ".".join(str(v) for v in ins) if ins else "-", x))
         v, ex, fl = a.split(" ")
         cmdval[name] = int(v)
@@ -529,7 +581,7 @@ def predict(model, h, failset, S, skip=()):
     ok = model.ask("build_ok 0 %d 0" % failures) == "1"
     return executed, failures, ok, cmdval
 
-LAUNCHABLE = ("exit", "segv", "undeclared", "unwritable", "mkdir-blocked")
+LAUNCHABLE = ("exit", "segv", "undeclared", "unwritable", "mkdir-blocked", "after-exit", "bad-deps")
 
 def run_history(h, drv, llb, model_path):
     """Runs one history; returns (list of findings, stats). A finding = (key, what, replay dict, found_input, broken)."""
@@ -721,8 +773,15 @@ CANCEL_IN_FLIGHT = [S_("c0", ["src0.txt"], ["o_c0_0.out"], slow="0.3"), S_("c1",
 # c0 fails; the delegate answers shouldCommandStart(c1) = false; c2 consumes c1
 DELEGATE_SKIP = [S_("c0", ["src0.txt"], ["o_c0_0.out"]), S_("c1", ["o_c0_0.out"], ["o_c1_0.out"]), S_("c2", ["o_c1_0.out"], ["o_c2_0.out"])]
 
+# the link step writes its image and THEN fails (allow-modified-outputs); pack consumes the image
+FAIL_AFTER_OUTPUT = [S_("c0", ["src0.txt"], ["o_c0_0.out"], allow_modified=True), S_("c1", ["o_c0_0.out"], ["o_c1_0.out"]),
+                     S_("c2", ["src0.txt"], ["o_c2_0.out", "o_c2_1.out"], allow_modified=True, deps=True), S_("c3", ["o_c2_1.out"], ["o_c3_0.out"], aood=True)]
+
 def corpus_histories():
     hs = []
+    for mi, mode in enumerate(["drv-0-keepgoing", "drv-4-keepgoing", "cli-serial", "drv-0-cancel"]):
+        hs.append(corpus_history(9300 + mi, FAIL_AFTER_OUTPUT, {"c0": ("after-exit", 0), "c2": ("bad-deps", 0)}, mode, "fail-after-output"))
+        hs.append(corpus_history(9310 + mi, FAIL_AFTER_OUTPUT, {"c2": ("after-exit", 0)}, mode, "fail-after-output"))
     for ci, c in enumerate(CORPUS):
         for mi, mode in enumerate(["drv-0-keepgoing", "drv-4-keepgoing", "cli-serial", "drv-4-cancel"]):
             hs.append(corpus_history(9000 + ci * 10 + mi, c["cmds"], c["fail"], mode, "corpus%d" % ci))
